@@ -3,6 +3,7 @@ from vlib import *
 
 PID = "C01"
 LEVEL = "model_checking"
+VALIDATE_STUBS = True
 MOD = "handler::verif_c01::"
 INJ = [("src/handler/mod.rs", "c01_replay.rs", "verif_replay_c01")]
 
